@@ -1,4 +1,4 @@
 From Coq Require Import Extraction ExtrOcamlBasic.
-From TK Require Import Mat_Sums Mat_Core Mat_Qc Mat_EigSelect EigSelect Mds_Model Mds_Spec Mds_Exec.
+From TK Require Import Mat_Sums Mat_Core Mat_Qc Mat_EigSelect EigSelect Mds_Model Mds_Spec Mds_Exec Mds_Exec_Wave2.
 Extraction "c05_model.ml" c05_d2 c05_mds c05_kpca c05_center c05_isomap c05_seen_dense c05_seen_randomized c05_spec_mds c05_spec_kpca
-  c05_embed c05_vals c05_views c05_factor c05_dist c05_contract Qcanon.Q2Qc.
+  c05_embed c05_vals c05_views c05_factor c05_dist c05_contract c05_factor_w c05_rgs c05_rsmall Qcanon.Q2Qc.
